@@ -221,17 +221,19 @@ def _find_padding(atom_path):
     meta, ilst = atom_path[-2:]
     assert meta.name == b"meta" and ilst.name == b"ilst"
     index = meta.children.index(ilst)
-    if index > 0:
-        prev = meta.children[index - 1]
-        if prev.name == b"free":
-            return prev
-
+    # prefer the atom after ilst: that is where save() puts the padding,
+    # so a following save finds the same region again
     try:
         next_ = meta.children[index + 1]
         if next_.name == b"free":
             return next_
     except IndexError:
         pass
+
+    if index > 0:
+        prev = meta.children[index - 1]
+        if prev.name == b"free":
+            return prev
 
 
 def _item_sort_key(key, value):
